@@ -20,8 +20,8 @@ TABLE = [
     ("<jxl_jbr::AppMarker as jxl_oxide_common::Bundle>::parse", "ty > 3", 1, "APP marker type beyond the four defined ones (unreachable!() in the replay, D22)"),
     ("<jxl_jbr::AppMarker as jxl_oxide_common::Bundle>::parse", "length < min_length", 1,
      "typed APP marker shorter than its fixed header (length - header underflows)"),
-    ("<jxl_jbr::ScanMoreInfo as jxl_oxide_common::Bundle>::parse::{closure#0}", "block_idx > 201326592", 1, "reset point block index bound"),
-    ("<jxl_jbr::ScanMoreInfo as jxl_oxide_common::Bundle>::parse::{closure#1}", "block_idx > 201326592", 1, "extra zero run block index bound"),
+    # the block index bound (3 << 26) of ScanMoreInfo's two lists is decided by R-JBR-SCANINFO: the parser evaluated from MIR with indices at
+    # and one above the bound in either list - independent of closures / loops / helper functions (own benign rewrite with for loops)
     ("jxl_jbr::JpegBitstreamData::finalize", "decompressed_len != ret:expected_data_len", 1, "Brotli payload length equals the length the header declares"),
     (NEW, "expected_icc_len != len(icc_profile)", 1, "ICC length the header expects vs the profile supplied"),
     (NEW, "expected_exif_len != len(exif)", 1, "Exif length the header expects vs the box supplied"),
@@ -873,7 +873,7 @@ def rule_scaninfo_eval(ctx):
         ("one reset point, no zero run", [0], []),
         ("reset points up to the limit, then a zero run at 0", [LIM - 10, 9], [(4, 0), (1, LIM - 1)]),
         ("reset point over the limit", [LIM - 10, 10], []),
-        ("zero run over the limit", [1], [(1, 7), (1, LIM)]),
+        ("zero run over the limit", [1], [(1, 7), (1, LIM - 7)]),
     ]
     rows, bad, undec = 0, None, None
     for name, resets, runs in scripts:
